@@ -752,6 +752,9 @@ pub struct WTrace {
     pub failures: Vec<crate::io::WFailure>,
     pub failures_after: Vec<usize>,
     pub interrupted: usize,
+    /// bytes the sink held at each delivered Interrupted, and how many had been delivered after each op
+    pub interrupts_at: Vec<usize>,
+    pub interrupts_after: Vec<usize>,
 }
 
 impl WTrace {
@@ -767,6 +770,7 @@ pub fn run_writer_t<T: Spec>(ops: &[WOp], wscript: &WScript, finish: bool) -> WT
     let mut results = Vec::new();
     let mut delivered_after = Vec::new();
     let mut failures_after = Vec::new();
+    let mut interrupts_after = Vec::new();
     let mut panic = None;
     for op in ops {
         let r = guarded((|| match op {
@@ -792,6 +796,7 @@ pub fn run_writer_t<T: Spec>(ops: &[WOp], wscript: &WScript, finish: bool) -> WT
         }
         delivered_after.push(w.get_ref().out.len());
         failures_after.push(w.get_ref().failures.len());
+        interrupts_after.push(w.get_ref().interrupted);
     }
     let mut into_inner = None;
     let sink: Option<crate::io::SinkState> = if panic.is_none() && finish {
@@ -816,8 +821,8 @@ pub fn run_writer_t<T: Spec>(ops: &[WOp], wscript: &WScript, finish: bool) -> WT
         Some(w.get_mut().take_state())
     };
     match sink {
-        Some(s) => WTrace { results, panic, delivered_after, into_inner, out: s.out, snapshots: s.snapshots, partial_writes: s.partial_writes, write_calls: s.write_calls, flushes: s.flushes, failures: s.failures, failures_after, interrupted: s.interrupted },
-        None => WTrace { results, panic, delivered_after, into_inner, out: Vec::new(), snapshots: Vec::new(), partial_writes: 0, write_calls: 0, flushes: 0, failures: Vec::new(), failures_after, interrupted: 0 },
+        Some(s) => WTrace { results, panic, delivered_after, into_inner, out: s.out, snapshots: s.snapshots, partial_writes: s.partial_writes, write_calls: s.write_calls, flushes: s.flushes, failures: s.failures, failures_after, interrupted: s.interrupted, interrupts_at: s.interrupts_at, interrupts_after },
+        None => WTrace { results, panic, delivered_after, into_inner, out: Vec::new(), snapshots: Vec::new(), partial_writes: 0, write_calls: 0, flushes: 0, failures: Vec::new(), failures_after, interrupted: 0, interrupts_at: Vec::new(), interrupts_after },
     }
 }
 
